@@ -60,17 +60,17 @@ def _analyses():
     thread = lambda c, w: kt.global_effects(c, w, thread=True)
     return {
         "C01": (
-            [a3.vjp, a3.helpers, a3_reduce.reductions, km.squeeze_axes, a16_perm.permutations_rule, a16_perm.norm_rolls, a17_labels.contraction_adjoints, vjp_axis, vjp_order, a2.catchall, a2.variadic, a2.argnums_rules, a1.arity, ka.option_domains, a5_factor.agree, ka.arraybox_table, kc.inplace_sites],
+            [a3.vjp, a3.helpers, a3_reduce.reductions, km.squeeze_axes, a16_perm.permutations_rule, a16_perm.norm_rolls, a17_labels.contraction_adjoints, vjp_axis, vjp_order, a2.catchall, a2.variadic, a2.argnums_rules, a1.arity, ka.option_domains, a5_factor.agree, a5_linear.closures_linear, ka.arraybox_table, kc.inplace_sites],
             "Reverse-mode exactness is numerical; decided here are the configuration-dependent plumbing clauses every exact rule needs: "
             "broadcast discipline of VJPs (A3.vjp), negative-axis hazards (A7), layout-relative `order` values never forwarded to the cotangent (A7.order), keyword/positional binding behind catch-alls (A2.catchall), "
-            "variadic offsets (A2.variadic), whole-argnums rules map element-wise (A2.argnums), arity (A1.arity), closed option domains (A6.enum), VJP/JVP factor agreement of elementwise rules (A5) "
+            "variadic offsets (A2.variadic), whole-argnums rules map element-wise (A2.argnums), arity (A1.arity), closed option domains (A6.enum), VJP/JVP factor agreement of elementwise rules (A5), linearity of every rule closure in its cotangent (A5.lin: a VJP is a linear map; helper primitives it calls must be known to be linear in that operand) "
             "and the operator/method call forms (A14); no rule writes in place to its cotangent, its arguments or the answer (A9.inplace: every other rule that reads the same array would see the changed values). Each is a necessary condition: breaking one makes some call configuration silently wrong.",
         ),
         "C02": (
-            [a1.lin, a3.jvp, a3.helpers, a3_reduce.reductions, a16_perm.norm_rolls, ka.sibling_guards, jvp_axis, jvp_order, a2.catchall, a1.arity, kc.zero_paths, a5_factor.agree, kc.inplace_sites],
+            [a1.lin, a3.jvp, a3.helpers, a3_reduce.reductions, a16_perm.norm_rolls, ka.sibling_guards, jvp_axis, jvp_order, a2.catchall, a1.arity, kc.zero_paths, a5_factor.agree, a5_linear.closures_linear, kc.inplace_sites],
             "Forward-mode: 'same'/def_linear only on linear (function, argument) pairs (A1.lin: exactly when the primitive applied to the tangent IS the JVP), "
             "output-shaped tangents of broadcasting JVPs (A3.jvp), guard agreement with the VJP twin (A6.sibling), axis hazards (A7), layout-relative `order` values (A7.order) and binding (A2) of JVP makers, "
-            "(value, tangent) order and zero tangents of the right space (A13.zero/A2.tuple), VJP/JVP factor agreement of elementwise rules (A5); no JVP rule writes in place to the tangent, the arguments or the answer it is given (A9.inplace: the tangent stored on the parent node is read again by every later consumer).",
+            "(value, tangent) order and zero tangents of the right space (A13.zero/A2.tuple), VJP/JVP factor agreement of elementwise rules (A5), linearity of every rule in its tangent (A5.lin); no JVP rule writes in place to the tangent, the arguments or the answer it is given (A9.inplace: the tangent stored on the parent node is read again by every later consumer).",
         ),
         "C03": (
             [kc.backward_pass, km.toposort, kc.dispatch, kt.wrapper, kc.raise_discipline, ka.arraybox_table, kc.ownership, km.container_vspaces, kc.inplace_sites],
@@ -129,7 +129,7 @@ def _analyses():
             "compares type and structure fields, ComplexArrayVSpace overrides (A4.vspace), purity and mut_add(None, x) freshness (A9.pure).",
         ),
         "C14": (
-            [kc.zero_paths, kc.closure_reuse, a1.nograd, a1.sym, a1.none_rules, a1.methods, ka.arraybox_table, kt.wrapper, kt.notrace_wrapper, kt.trace_fn, a3.vjp_locally_constant],
+            [kc.zero_paths, kc.closure_reuse, a1.nograd, a1.sym, a1.none_rules, a1.methods, ka.arraybox_table, kt.wrapper, kt.notrace_wrapper, kt.trace_fn, a3.vjp_locally_constant, kc.programmatic_registrations],
             "Exact zeros: independent outputs give zeros of the right space and never None (A13.zero); everything declared non-differentiable is locally constant (A1.nograd/none/methods, "
             "facts about NumPy) for both node types (A1.sym); comparisons map to untraced functions, __bool__/shape/len read the raw value (A14); the notrace branch returns plain values; a written-out rule for a locally constant argument has that argument's shape support (A3.vjp).",
         ),
@@ -145,9 +145,9 @@ def _analyses():
             "primal/aux untouched, jacobian = output shape + input shape over the output basis, deriv element [1], holomorphic_grad, hessian, make_hvp, checkpoint, grad_named.",
         ),
         "C17": (
-            [kc.dispatch, kc.raise_discipline, kc.zero_paths, kt.wrapper, ka.operators, a2.argnums_rules],
+            [kc.dispatch, kc.raise_discipline, kc.zero_paths, kt.wrapper, ka.operators, a2.argnums_rules, kc.programmatic_registrations],
             "Extension contract: the three defvjp branches are specialisations of one mapping (A13.align), missing rules raise (A6.raise), None -> zeros of the right argument (A13.zero), "
-            "registration slots and wrapper hand-over (A2.slot), whole-argnums rules map element-wise (A2.argnums), argnums= honoured, 'same'/def_linear substitute at argnum, checkpoint wiring (A15).",
+            "registration slots and wrapper hand-over (A2.slot), whole-argnums rules map element-wise (A2.argnums), argnums= honoured (also by the adapters that register rules themselves: makers and argnums= of equal length by construction), 'same'/def_linear substitute at argnum, checkpoint wiring (A15).",
         ),
         "C18": (
             [kck.checker, kck.rng_independence],
